@@ -18,8 +18,9 @@ import (
 // C18 — scans stay sane while the table is being written (leveldb engines).
 
 type C18Write struct {
-	K   string `json:"k"`   // set | del | rmw | ins | multi
-	Row int    `json:"row"` // row index (ins: a new key right after that row)
+	K   string `json:"k"`           // set | del | rmw | ins | multi | delrun
+	Row int    `json:"row"`         // row index (ins: a new key right after that row)
+	N   int    `json:"n,omitempty"` // delrun: that many consecutive rows starting at Row are deleted by one MutateRows
 }
 
 type C18Case struct {
@@ -52,7 +53,11 @@ func genC18(free bool) *rapid.Generator[C18Case] {
 			c.Hole = rapid.SampledFrom([]int{0, 0, 1, 50}).Draw(t, "hole") // >0: the range is split in two with a gap of that many rows
 		}
 		w := rapid.Custom(func(t *rapid.T) C18Write {
-			return C18Write{K: rapid.SampledFrom([]string{"set", "set", "del", "rmw", "ins", "multi", "rmwbad", "setbad"}).Draw(t, "k"), Row: rapid.IntRange(0, c.NRows-1).Draw(t, "row")}
+			w := C18Write{K: rapid.SampledFrom([]string{"set", "set", "del", "rmw", "ins", "multi", "rmwbad", "setbad", "delrun"}).Draw(t, "k"), Row: rapid.IntRange(0, c.NRows-1).Draw(t, "row")}
+			if w.K == "delrun" {
+				w.N = rapid.IntRange(2, 400).Draw(t, "n")
+			}
+			return w
 		})
 		c.Gaps = rapid.SliceOfN(rapid.SliceOfN(w, 0, 6), 1, 7).Draw(t, "gaps")
 		if !c.Wide {
@@ -147,6 +152,12 @@ func c18Op(w C18Write, gap int) *bt.Op {
 		return &bt.Op{K: "RMW", Table: tbl, Key: c18Key(w.Row), Rules: []bt.RMWRule{{Fam: "f", Qual: "log", Append: val}, {Fam: "f", Qual: "c0", Inc: true, Amount: 1}}}
 	case "setbad": // must be refused (unknown family after a valid mutation) and change nothing
 		return &bt.Op{K: "MutateRow", Table: tbl, Key: c18Key(w.Row), Muts: []bt.Mut{{K: "set", Fam: "f", Qual: "c0", TS: 1000, Val: val}, {K: "set", Fam: "nofam", Qual: "x", TS: 1000, Val: val}}}
+	case "delrun": // a client clearing a run of adjacent rows (some of them not yet streamed, some perhaps gone already)
+		var es []bt.Entry
+		for i := 0; i < w.N; i++ {
+			es = append(es, bt.Entry{Key: c18Key(w.Row + i), Muts: []bt.Mut{{K: "delrow"}}})
+		}
+		return &bt.Op{K: "MutateRows", Table: tbl, Entries: es}
 	case "ins":
 		return &bt.Op{K: "MutateRow", Table: tbl, Key: c18InsKey(w.Row, gap), Muts: []bt.Mut{{K: "set", Fam: "f", Qual: "c0", TS: 1000, Val: val}}}
 	default:
@@ -229,7 +240,7 @@ func runC18(c C18Case, ev *vt.Ev) *vt.Failure {
 	inSet := func(k bt.BS) bool { return k >= lo && k < hi && !(holeLo != "" && k >= holeLo && k < holeHi) }
 	var writeErr atomic.Value
 	gapsUsed, acked := 0, 0
-	touchedAhead := false
+	touchedAhead, runAhead := false, false
 	refused := 0
 	doWrite := func(op *bt.Op, mustFail bool) {
 		done := make(chan *bt.Result, 1)
@@ -276,6 +287,14 @@ func runC18(c C18Case, ev *vt.Ev) *vt.Failure {
 			}
 			for _, w := range c.Gaps[n-1] {
 				op := c18Op(w, n)
+				for _, e := range op.Entries {
+					if string(e.Key) > lastSent && inSet(e.Key) {
+						touchedAhead = true
+						if w.K == "delrun" {
+							runAhead = true
+						}
+					}
+				}
 				if string(op.Key) > lastSent && inSet(op.Key) {
 					touchedAhead = true
 				}
@@ -410,6 +429,9 @@ func runC18(c C18Case, ev *vt.Ev) *vt.Failure {
 	if touchedAhead {
 		labels = append(labels, "write-to-row-not-yet-streamed")
 	}
+	if runAhead {
+		labels = append(labels, "run-of-rows-deleted-ahead-of-the-scan")
+	}
 	if refused > 0 {
 		labels = append(labels, "refused-write-during-scan")
 	}
@@ -430,7 +452,7 @@ func (s *scanTracker) send(n int) error { return s.onSend(n) }
 
 func TestC18(t *testing.T) {
 	vt.Prop[C18Case]{ID: "C18", Test: "TestC18",
-		Rule: "owned interleaving: a full or ranged scan over 1100-3000 single-cell rows or 250-600 five-cell rows (2-6 response messages; a fifth of the tables with ~4 KB values so that they outgrow the write buffer, a third of the disk tables closed and reopened first: the scan then reads leveldb table files) on the leveldb engines is parked inside every Send (where it has released the table lock) while a drawn batch of writes runs to acknowledgement: multi-cell SetCell, DeleteFromRow, ReadModifyWrite append, new keys, two-row MutateRows, and requests that must be refused part-way (increment of a text cell after an append, unknown family after a valid SetCell) on rows before / at / after the scan position; oracle: status OK, strictly ascending keys inside the range, every returned row equals ONE state that row had during the scan (whole row compared), rows present throughout are returned, every write is acknowledged while the scan is parked; non-trivial = >=2 gaps with acknowledged writes touching a row not yet streamed",
+		Rule: "owned interleaving: a full or ranged scan over 1100-3000 single-cell rows or 250-600 five-cell rows (2-6 response messages; a fifth of the tables with ~4 KB values so that they outgrow the write buffer, a third of the disk tables closed and reopened first: the scan then reads leveldb table files) on the leveldb engines is parked inside every Send (where it has released the table lock) while a drawn batch of writes runs to acknowledgement: multi-cell SetCell, DeleteFromRow of one row or of a run of 2-400 adjacent rows, ReadModifyWrite append, new keys, two-row MutateRows, and requests that must be refused part-way (increment of a text cell after an append, unknown family after a valid SetCell) on rows before / at / after the scan position; oracle: status OK, strictly ascending keys inside the range, every returned row equals ONE state that row had during the scan (whole row compared), rows present throughout are returned, every write is acknowledged while the scan is parked; non-trivial = >=2 gaps with acknowledged writes touching a row not yet streamed",
 		Gen:  genC18(false), Run: runC18}.Main(t)
 }
 
